@@ -652,12 +652,7 @@ func ruleDedup(r *Run) {
 						}
 					}
 				}
-				min, max, cyclic, _ := pathCount(fresh, 0, func(b *ssa.BasicBlock) bool { return b == header || !loop[b] }, func(i ssa.Instruction) int {
-					if isBatchAppend(i) {
-						return 1
-					}
-					return 0
-				})
+				min, max, cyclic := appendsToHeader(fresh, header, loop, isBatchAppend)
 				if cyclic || min != 1 || max != 1 {
 					good = false
 					why = fmt.Sprintf("after setIMap reported a new target index, %d..%d entries are added to the batch before the next request is looked at", min, max)
@@ -680,6 +675,66 @@ func ruleDedup(r *Run) {
 			r.AtLeast("R13k.slot", "setIMap calls in executeRequests", m, 1)
 		}
 	}
+}
+
+// appendsToHeader: the smallest and largest number of instructions satisfying pred on the paths
+// from start to the loop header that stay inside the loop (paths that leave the loop — an
+// error return — give up the whole batch and do not count). cyclic: an inner cycle was met.
+func appendsToHeader(start, header *ssa.BasicBlock, loop map[*ssa.BasicBlock]bool, pred func(ssa.Instruction) bool) (min, max int, cyclic bool) {
+	type res struct {
+		min, max int
+		ok       bool
+	}
+	memo := map[*ssa.BasicBlock]*res{}
+	on := map[*ssa.BasicBlock]bool{}
+	var visit func(b *ssa.BasicBlock) res
+	visit = func(b *ssa.BasicBlock) res {
+		if b == header {
+			return res{0, 0, true}
+		}
+		if !loop[b] {
+			return res{}
+		}
+		if m := memo[b]; m != nil {
+			return *m
+		}
+		if on[b] {
+			cyclic = true
+			return res{}
+		}
+		on[b] = true
+		defer func() { on[b] = false }()
+		sum := 0
+		for _, i := range b.Instrs {
+			if pred(i) {
+				sum++
+			}
+		}
+		out := res{}
+		for _, s := range b.Succs {
+			sr := visit(s)
+			if !sr.ok {
+				continue
+			}
+			if !out.ok {
+				out = res{sum + sr.min, sum + sr.max, true}
+				continue
+			}
+			if sum+sr.min < out.min {
+				out.min = sum + sr.min
+			}
+			if sum+sr.max > out.max {
+				out.max = sum + sr.max
+			}
+		}
+		memo[b] = &out
+		return out
+	}
+	r := visit(start)
+	if !r.ok {
+		return 0, 0, cyclic
+	}
+	return r.min, r.max, cyclic
 }
 
 // deepCopier: every value fn returns as its first result shares no container with fn's
@@ -1094,7 +1149,7 @@ func ruleStitchVariable(r *Run) {
 		}
 	}
 	r.Check(ok, rule, fnName(getv), "stitched id variable agrees", r.P.pos(getv.Pos()),
-		"planner uses $"+strings.Join(planned, ",")+" in node(id: …); the executor stores the entity id under the same name and de-duplicates on it",
+		"planner uses $"+strings.Join(planned, ",")+" in node(id: …); the executor stores the entity id under the same name and de-duplicates on it (the name is not reserved: a client variable that is also called $"+strings.Join(planned, ",")+" and is used below an entity boundary is re-declared as ID! and overwritten by the entity id — audit 8, C1; this rule only shows that planner and executor agree on the name)",
 		"the variable name the planner puts into `node(id: $…)` ("+strings.Join(planned, ",")+"), the name the executor stores the entity id under ("+strings.Join(filled, ",")+") and the name de-duplication looks up ("+strings.Join(looked, ",")+") differ: child steps are sent without their id")
 	okArg := len(argName) == 1 && argName[0] == "id"
 	r.Check(okArg, rule, fnName(conv), "node argument name", r.P.pos(conv.Pos()), "the wrapper calls node(id: …)", "the node wrapper no longer passes the argument `id` required by the Relay Node field")
@@ -1349,6 +1404,10 @@ var hofAllowed = map[string]string{
 // from a recursion, and it does not put it aside.
 func (r *Run) hofCallsOnce(e *Edge) (bool, string) {
 	var hs []*ssa.Function
+	off := 0
+	if e.Site.Common().IsInvoke() {
+		off = 1 // the receiver is a parameter of the method but not an argument of the call
+	}
 	for _, e2 := range r.P.CG.Out[e.Caller] {
 		if e2.Site == e.Site && (e2.Kind == "static" || e2.Kind == "invoke" || e2.Kind == "dynamic") {
 			hs = append(hs, e2.Callee)
@@ -1363,14 +1422,14 @@ func (r *Run) hofCallsOnce(e *Edge) (bool, string) {
 		}
 		found := false
 		for i, a := range e.Site.Common().Args {
-			if _, isSig := a.Type().Underlying().(*types.Signature); !isSig || i >= len(h.Params) {
+			if _, isSig := a.Type().Underlying().(*types.Signature); !isSig || i+off >= len(h.Params) {
 				continue
 			}
 			fs, _ := r.P.CG.funcValues(a, map[ssa.Value]bool{})
 			for _, f := range fs {
 				if origin(f) == e.Callee {
 					found = true
-					if once, why := paramCalledOnce(r, h, i, map[*ssa.Function]bool{}); !once {
+					if once, why := paramCalledOnce(r, h, i+off, map[*ssa.Function]bool{}); !once {
 						return false, why
 					}
 				}
